@@ -262,6 +262,7 @@ def run(repo: Repo, rep: Report, tier: str) -> None:
     rep.counters["run-time writes to status tables"] = n_mut
     _delegate_finality(repo, rep, tier)
     _delegate_scp_finality(repo, rep, tier)
+    check_category_tests_complete(repo, rep, smap, sp)
 
 
 def _delegate_finality(repo, rep, tier):
@@ -339,3 +340,63 @@ def check_docs_agreement(repo, rep, tables: dict) -> None:
             rep.check(ok, "docs-agreement", f"status.{name}", f"{code} documented as {cat} in {f.name}: table has {ent if ent is None else got}", f"{f.name} documents status {code} ({cat}) for this service class but {name} {'has no entry for it' if ent is None else 'files it under ' + str(got)}: a peer's {code} is then not recognised as {cat} by the service class that uses the table", mod=st, node=st.assign_stmts[name][0] if name in st.assign_stmts else st.tree)
     rep.floor("documentation files matched to a status table", n_files, 6)
     rep.floor("documented status rows compared", n_rows, 40)
+
+
+
+def check_category_tests_complete(repo, rep, smap: dict, sp: dict) -> None:
+    """Code that decides by *value* whether a response is Pending (the applications' `status.Status in [0xFF00,
+    0xFF01]`) restates a category. The categories with a handful of members - Pending {0xFF00, 0xFF01}, Cancel,
+    Success - can be compared exactly: a test whose constants all lie in one such category must name all of
+    its members, otherwise a response of that category (a Pending 0xFF01 'optional keys not supported' match)
+    is treated as something else. Tests on single codes of the big categories (0xB001, 0x0000 ...) are by value on
+    purpose and are not touched."""
+    from .c27 import pkg_modules
+
+    rep.rule("category-test-complete", "a test of rsp.Status against constants that all belong to Pending (or another small category) names every code of that category")
+    members: dict[str, set] = {}
+    for code, cat in smap.items():
+        members.setdefault(cat, set()).add(code)
+    small = {cat: m for cat, m in members.items() if 2 <= len(m) <= 4}
+    rep.need("Pending" in small, "the PS3.7 Pending category is no longer a small explicit set in the specification table")
+    st = repo.mod("status")
+    enum_vals = {}
+    ci = st.classes.get("Status")
+    if ci is not None:
+        for a in ci.node.body:
+            if isinstance(a, ast.Assign) and isinstance(a.targets[0], ast.Name) and isinstance(a.value, ast.Constant) and isinstance(a.value.value, int):
+                enum_vals[a.targets[0].id] = a.value.value
+
+    def const(e):
+        if isinstance(e, ast.Constant) and isinstance(e.value, int) and not isinstance(e.value, bool):
+            return e.value
+        if isinstance(e, ast.Attribute) and norm(e.value).split(".")[-1] == "Status" and e.attr in enum_vals:
+            return enum_vals[e.attr]
+        return None
+
+    n = 0
+    for mname, m in sorted(repo.modules.items()):
+        short = mname.replace("pynetdicom.", "")
+        if short.startswith(("tests.", "benchmarks.")) or ".tests." in short:
+            continue
+        for x in ast.walk(m.tree):
+            if not (isinstance(x, ast.Compare) and len(x.ops) == 1 and isinstance(x.left, ast.Attribute) and x.left.attr == "Status"):
+                continue
+            op, right = x.ops[0], x.comparators[0]
+            if isinstance(op, (ast.Eq, ast.NotEq)):
+                vals = [const(right)]
+            elif isinstance(op, (ast.In, ast.NotIn)) and isinstance(right, (ast.List, ast.Tuple, ast.Set)):
+                vals = [const(e) for e in right.elts]
+            else:
+                continue
+            if not vals or any(v is None for v in vals):
+                continue
+            cats = {smap.get(v, sp["default"]) for v in vals}
+            if len(cats) != 1 or next(iter(cats)) not in small:
+                continue
+            cat = next(iter(cats))
+            n += 1
+            missing = sorted(small[cat] - set(vals))
+            rep.check(not missing, "category-test-complete", f"{short}.{qualname(x)}", enclosing(x, (ast.stmt,)) or x, f"`{norm(x)}` decides whether a response is {cat} by value but leaves out {[hex(v) for v in missing]}, which is {cat} too (PS3.7 Annex C, code_to_category): such a response is handled as if it were not {cat} - e.g. a C-FIND match answered with 0xFF01 is not treated as a match", mod=m, node=x)
+    rep.counters["tests of a status against the members of a small category"] = n
+    if not n:
+        rep.ok("category-test-complete", "pynetdicom :: no test of a status against the members of a small category", "nothing decides Pending by value")
